@@ -15,6 +15,7 @@ use std::rc::Rc;
 pub struct Cond {
     pub site: u32,
     /// 0: value `${c}`  1: `${c} and ${d}`  2: command `ans s`  3: negated command `not ans s`
+    /// 4: `${c} or ${d} and ${e}`
     pub form: u8,
 }
 
@@ -138,6 +139,11 @@ fn cond_pre(c: &Cond, out: &mut Vec<String>) {
             out.push(format!("c{} = ans {}", c.site, c.site));
             out.push(format!("d{} = ans {}", c.site, c.site + 500));
         }
+        4 => {
+            out.push(format!("c{} = ans {}", c.site, c.site));
+            out.push(format!("d{} = ans {}", c.site, c.site + 500));
+            out.push(format!("e{} = ans {}", c.site, c.site + 1000));
+        }
         _ => (),
     }
 }
@@ -147,6 +153,8 @@ fn cond_text(c: &Cond) -> String {
         0 => format!("${{c{}}}", c.site),
         1 => format!("${{c{}}} and ${{d{}}}", c.site, c.site),
         2 => format!("ans {}", c.site),
+        // an `or` in front of an `and`: ( c or d ) and e
+        4 => format!("${{c{}}} or ${{d{}}} and ${{e{}}}", c.site, c.site, c.site),
         _ => format!("not ans {} n", c.site),
     }
 }
@@ -308,6 +316,10 @@ impl<'a> RefInterp<'a> {
                     && self.vars.get(&format!("d{}", c.site)).map(|v| v == "true").unwrap_or(false)
             }
             2 => self.ans(c.site, false),
+            4 => {
+                let get = |r: &Self, k: &str| r.vars.get(&format!("{}{}", k, c.site)).map(|v| v == "true").unwrap_or(false);
+                (get(self, "c") || get(self, "d")) && get(self, "e")
+            }
             _ => self.ans(c.site, true),
         }
     }
@@ -323,6 +335,14 @@ impl<'a> RefInterp<'a> {
                 self.vars.insert(format!("c{}", c.site), v.to_string());
                 let w = self.ans(c.site + 500, false);
                 self.vars.insert(format!("d{}", c.site), w.to_string());
+            }
+            4 => {
+                let v = self.ans(c.site, false);
+                self.vars.insert(format!("c{}", c.site), v.to_string());
+                let w = self.ans(c.site + 500, false);
+                self.vars.insert(format!("d{}", c.site), w.to_string());
+                let x = self.ans(c.site + 1000, false);
+                self.vars.insert(format!("e{}", c.site), x.to_string());
             }
             _ => (),
         }
